@@ -136,9 +136,10 @@ type World struct {
 	sched scheduler
 	t0    time.Time
 
-	errN          int64 // storage failures injected so far (selects the error shape)
-	mailRng       *Rng  // decides how long a slow mail system keeps a sending goroutine (Config.SlowMail)
-	expireOn      bool  // the expire module is set up and its middleware installed (see Config.ExpireLate)
+	errN          int64     // storage failures injected so far (selects the error shape)
+	sink          *mailSink // where the default LogMailer prints
+	mailRng       *Rng      // decides how long a slow mail system keeps a sending goroutine (Config.SlowMail)
+	expireOn      bool      // the expire module is set up and its middleware installed (see Config.ExpireLate)
 	restarts      int
 	appLoadedUser atomic.Int64
 	appHookRan    atomic.Int64                               // the application's logout hook ran (atomic: tasks of a concurrent run call it)
@@ -364,7 +365,60 @@ type simMailer struct {
 	inner authboss.Mailer
 }
 
+// mailSink is the writer the default LogMailer prints into. Every Write is a
+// seam (the sending goroutine may be overtaken there); the sink remembers which
+// send each chunk belongs to, so that a mail whose chunks are interleaved with
+// another mail's can be told from one that arrived in one piece.
+type mailSink struct {
+	w      *World
+	mu     sync.Mutex
+	chunks []uint64          // send id of every chunk, in arrival order
+	cur    map[uint64]uint64 // goroutine -> id of the send it is inside
+	nSend  uint64
+}
+
+func (m *mailSink) begin() {
+	m.mu.Lock()
+	m.nSend++
+	if m.cur == nil {
+		m.cur = map[uint64]uint64{}
+	}
+	m.cur[goid()] = m.nSend
+	m.mu.Unlock()
+}
+
+func (m *mailSink) Write(p []byte) (int, error) {
+	m.w.seam("mailsink.write", "")
+	m.mu.Lock()
+	m.chunks = append(m.chunks, m.cur[goid()])
+	m.mu.Unlock()
+	return len(p), nil
+}
+
+// interleaved reports a send whose chunks do not form one contiguous run.
+func (m *mailSink) interleaved() (bool, string) {
+	m.mu.Lock()
+	defer m.mu.Unlock()
+	first, last, count := map[uint64]int{}, map[uint64]int{}, map[uint64]int{}
+	for i, id := range m.chunks {
+		if _, ok := first[id]; !ok {
+			first[id] = i
+		}
+		last[id] = i
+		count[id]++
+	}
+	for id := uint64(1); id <= m.nSend; id++ {
+		if count[id] > 0 && last[id]-first[id]+1 != count[id] {
+			return true, fmt.Sprintf("mail #%d reached the mailer's writer in %d pieces with %d pieces of other mails in between", id, count[id], last[id]-first[id]+1-count[id])
+		}
+	}
+	return false, ""
+}
+
 func (m simMailer) Send(ctx context.Context, e authboss.Email) error {
+	if m.w.sink != nil {
+		m.w.sink.begin()
+	}
 	f := m.w.seam("mail.send", strings.Join(e.To, ","))
 	rec := MailRec{Seq: m.w.nextSeq(), To: e.To, Cc: e.Cc, Bcc: e.Bcc, Subject: e.Subject, Text: e.TextBody, HTML: e.HTMLBody, At: time.Now(), Fate: "delivered"}
 	rec.Kind, rec.Token = classifyMail(e.TextBody + " " + e.HTMLBody)
@@ -629,7 +683,10 @@ func (w *World) newSite(second bool) *authboss.Authboss {
 		logger := defaults.NewLogger(simLogger{w})
 		ab.Config.Core.Logger = logger
 		ab.Config.Core.ErrorHandler = simErrHandler{w: w, def: defaults.NewErrorHandler(logger)}
-		var innerMailer authboss.Mailer = defaults.NewLogMailer(io.Discard)
+		if w.sink == nil {
+			w.sink = &mailSink{w: w}
+		}
+		var innerMailer authboss.Mailer = defaults.NewLogMailer(w.sink)
 		if cfg.SMTPMailer {
 			innerMailer = defaults.NewSMTPMailer("bad:::addr", nil)
 		}
